@@ -346,6 +346,7 @@ package table
 //@ func (*block).seek
 //@   props C13 C02
 //@   safety off
+//@   sortedinput the keys at the restart points of a block increase, as the writer emits them (a block that passed its checksum is such a block)
 //@   requires 0 <= rstart && rstart <= rlimit && rlimit <= b.restartsLen && 0 <= b.restartsOffset && b.restartsOffset + 4*b.restartsLen <= len(b.data) && len(b.data) <= 1099511627776
 //@   ensures [C02,C13:the-restart-point-found-lies-in-the-searched-range] rstart <= index && (index < rlimit || index == rstart)
 //@   ensures [C02,C13:the-offset-is-the-one-recorded-for-that-restart-point] offset == le32(b.data, b.restartsOffset + 4*index)
